@@ -2,6 +2,15 @@ use crate::{util::*, Component};
 use s2n_codec::{DecoderBuffer, Encoder, EncoderBuffer, EncoderValue};
 use s2n_quic_core::varint::VarInt;
 
+pub const NAMES: &[&str] = &["varint"];
+
+pub fn make(name: &str) -> Option<Box<dyn Component>> {
+    match name {
+        "varint" => Some(Box::new(VarIntC)),
+        _ => None,
+    }
+}
+
 pub struct VarIntC;
 
 impl Component for VarIntC {
